@@ -16,7 +16,7 @@ outputs (`store`d boundaries, used values); it does not look at the model. -/
 namespace Driver.C12
 open Counters
 
-inductive Kind | g | e | k | i | none
+inductive Kind | g | w | e | k | i | c | none
 deriving DecidableEq
 
 structure St where
@@ -119,6 +119,103 @@ def stepG (st : St) (ws : List String) (out : String) : St × String :=
           | some u => some s!"restart resumes at {l}, not past the used value {u}"
           | Option.none => Option.none
         | Option.none => Option.none
+      | _ => Option.none
+    ({ st with gs := gs' }, verdict ora m out)
+  | _ => (st, "BAD op")
+
+/-! ### W: the real group transmit path (`initiate_group` + `group_invoke_with`, counter read from the wire) -/
+
+/-- the oracle for a value seen on the wire (same specification as `use` in stream `g`) -/
+def wireOracle (st : St) (v : Nat) : Option String :=
+  if !st.oon then Option.none
+  else if st.oused.contains v then some s!"counter {v} reached the wire twice"
+  else match st.odur with
+    | Option.none => some s!"counter {v} on the wire while no boundary is stored"
+    | some d => if gAhead v d then Option.none else some s!"counter {v} on the wire while the stored boundary {d} does not cover it"
+
+def resumeOracle (st : St) (l : Nat) : Option String :=
+  if !st.oon then Option.none else
+  match st.oused.find? (fun u => !gAhead u l) with
+  | some u => some s!"restart resumes at {l}, not past the counter {u} seen on the wire"
+  | Option.none => Option.none
+
+/-- the implementation's stores (`s<b>` tokens) become the durable boundary of the oracle -/
+def wStores (st : St) (toks : List String) : St :=
+  toks.foldl (fun st t =>
+    if t.startsWith "s" then
+      match (t.drop 1).toString.toNat? with
+      | some b => { st with odur := some b }
+      | Option.none => st
+    else st) st
+
+def stepW (st : St) (ws : List String) (out : String) : St × String :=
+  let o := words out
+  match ws with
+  | ["open", rs] =>
+    match rs.toNat? with
+    | Option.none => (st, "BAD rand")
+    | some rand =>
+      let r := st.gs.vol.reserve rand
+      let s1 := gStep (gStep st.gs (.reserve rand)) .store
+      let full := st.gs.ready.length ≥ Consts.maxExchanges
+      let s2 := if full then gStep s1 .abandon else gStep s1 .stash
+      let stores := match r.2.2 with | some b => s!"s{b}" | Option.none => "-"
+      let m := s!"{stores} {s2.vol.live} {s2.vol.boundary} {if full then "err:NoSpaceExchanges" else "ok"}"
+      (wStores { st with gs := s2 } o, verdict Option.none m out)
+  | ["openfail", rs] =>
+    match rs.toNat? with
+    | Option.none => (st, "BAD rand")
+    | some rand =>
+      let r := st.gs.vol.reserve rand
+      match r.2.2 with
+      | some _ =>
+        -- the store fails: `initiate_group` returns the error, the reservation is dropped, nothing
+        -- became durable. Store failures are outside C12's quantifier: oracle off from here on.
+        let s1 := gStep st.gs (.reserve rand)
+        let s2 := { s1 with inflight := Option.none }
+        let m := s!"- {s2.vol.live} {s2.vol.boundary} err:StdIoError"
+        (wStores { st with gs := s2, oon := false } o, verdict Option.none m out)
+      | Option.none =>
+        -- no store is attempted: an ordinary `open`
+        let s1 := gStep (gStep st.gs (.reserve rand)) .store
+        let full := st.gs.ready.length ≥ Consts.maxExchanges
+        let s2 := if full then gStep s1 .abandon else gStep s1 .stash
+        let m := s!"- {s2.vol.live} {s2.vol.boundary} {if full then "err:NoSpaceExchanges" else "ok"}"
+        (wStores { st with gs := s2 } o, verdict Option.none m out)
+  | ["send", is] =>
+    match is.toNat? with
+    | Option.none => (st, "BAD idx")
+    | some i =>
+      let gs' := gStep st.gs (.use i)
+      let m := match st.gs.ready[i]? with | some v => toString v | Option.none => "-"
+      match out.toNat? with
+      | Option.none => ({ st with gs := gs' }, verdict Option.none m out)
+      | some v => ({ st with gs := gs', oused := v :: st.oused }, verdict (wireOracle st v) m out)
+  | ["opencrash", how, rs] =>
+    match rs.toNat? with
+    | Option.none => (st, "BAD rand")
+    | some rand =>
+      let r := st.gs.vol.reserve rand
+      let s1 := gStep st.gs (.reserve rand)
+      let (s2, pre) : GSys × String := match r.2.2 with
+        | some b =>
+          if how = "a" then (gStep (gStep s1 .store) .crash, s!"s{b} died")
+          else (gStep s1 .crash, "- died")
+        | Option.none =>
+          let full := st.gs.ready.length ≥ Consts.maxExchanges
+          (gStep (if full then gStep (gStep s1 .store) .abandon else gStep (gStep s1 .store) .stash) .crash,
+            if full then "- err:NoSpaceExchanges" else "- done")
+      let m := s!"{pre} {s2.vol.live} {s2.vol.boundary}"
+      let st1 := wStores { st with gs := s2 } o
+      let ora := match o.reverse with
+        | _ :: ls :: _ => match ls.toNat? with | some l => resumeOracle st1 l | Option.none => Option.none
+        | _ => Option.none
+      (st1, verdict ora m out)
+  | ["crash"] =>
+    let gs' := gStep st.gs .crash
+    let m := s!"{gs'.vol.live} {gs'.vol.boundary}"
+    let ora := match o with
+      | [ls, _] => match ls.toNat? with | some l => resumeOracle st l | Option.none => Option.none
       | _ => Option.none
     ({ st with gs := gs' }, verdict ora m out)
   | _ => (st, "BAD op")
@@ -285,25 +382,74 @@ def stepC (st : St) (icd : Bool) (ws : List String) (out : String) : St × Strin
       ({ st with cs := cs', opending := st.opending || told, ospent := st.ospent + d }, verdict Option.none m out)
   | _ => (st, "BAD op")
 
+/-! ### C: the real `Icd::send_check_in` (counter decrypted from the Check-In datagram) -/
+
+def firstBad (rs : List String) : String :=
+  match rs.find? (fun r => r.startsWith "ORA") with
+  | some r => r
+  | Option.none => match rs.find? (fun r => r ≠ "ok") with
+    | some r => r
+    | Option.none => "ok"
+
+def stepCW (st : St) (ws : List String) (out : String) : St × String :=
+  let o := words out
+  match ws with
+  | ["checkin"] =>
+    -- `send_check_in` = `next()` -> message out -> `advance_counter` (store when told)
+    let expect := s!"{st.cs.ctr.next} {optS st.cs.ctr.advance.2}"
+    match o with
+    | [c, s] =>
+      let (st1, r1) := stepC st true ["use"] c
+      let (st2, r2) := stepC st1 true ["advst"] s
+      (st2, firstBad [r1, r2])
+    | _ =>
+      let (st1, _) := stepC st true ["use"] "?"
+      let (st2, _) := stepC st1 true ["advst"] "?"
+      (st2, s!"DIS {expect}")
+  | ["checkinfail"] =>
+    -- the store of `advance_counter` fails: `advance()` has already moved the in-memory boundary.
+    -- Store failures are outside C12's quantifier: oracle off from here on (if a store was due).
+    let adv := st.cs.ctr.advance.2
+    let expect := s!"{st.cs.ctr.next} - {if adv.isSome then "err:StdIoError" else "ok"}"
+    let (st1, _) := stepC st true ["use"] (match o with | c :: _ => c | [] => "?")
+    let (st2, _) := stepC st1 true ["adv"] (optS adv)
+    ({ st2 with oon := st2.oon && adv.isNone }, verdict Option.none expect out)
+  | ["checkincrash", how, is] =>
+    let adv := st.cs.ctr.advance.2
+    -- what the harness can see of the store: nothing if the power went before it became durable
+    let (advOp, stored, hw) : String × String × String := match adv with
+      | some b => if how = "a" then ("advst", toString b, "died") else ("adv", "-", "died")
+      | Option.none => ("advst", "-", "done")
+    let (c, s, h, nx) : String × String × String × String := match o with
+      | [c, s, h, nx] => (c, s, h, nx)
+      | _ => ("?", "?", "?", "?")
+    let (st1, r1) := stepC st true ["use"] c
+    -- a store that did not become durable is not reported: feed the model's own answer
+    let (st2, r2) := stepC st1 true [advOp] (if advOp = "adv" then optS adv else s)
+    let (st3, r3) := stepC st2 true ["boot", is] nx
+    let r4 := if s = stored ∧ h = hw then "ok" else s!"DIS {st.cs.ctr.next} {stored} {hw} {st3.cs.ctr.next}"
+    (st3, firstBad [r1, r2, r3, r4])
+  | _ => stepC st true ws out
+
 def step (st : St) (line : String) : St × String :=
   let (op, out) := splitArrow line
   match words op with
   | "case" :: _ :: k :: rest =>
-    if k = "g" ∨ k = "G" then
+    if k = "g" ∨ k = "G" ∨ k = "W" then
       match rest.head?.bind parseD0 with
-      | some d0 => ({ kind := .g, gs := GSys.boot d0, odur := d0 }, "case")
+      | some d0 => ({ kind := if k = "W" then .w else .g, gs := GSys.boot d0, odur := d0 }, "case")
       | Option.none => ({}, "BAD d0")
     else if k = "e" then
       match rest.head?.bind parseD0 with
       | some d0 => ({ kind := .e, es := ESys.boot d0, odur := d0,
                       oon := match d0 with | some d => d < eTop | Option.none => true }, "case")
       | Option.none => ({}, "BAD d0")
-    else if k = "k" ∨ k = "i" then
+    else if k = "k" ∨ k = "i" ∨ k = "C" then
       match rest with
       | [ds, es, is] =>
         match parseD0 ds, es.toNat?, is.toNat? with
         | some d0, some ep, some ini =>
-          ({ kind := if k = "k" then .k else .i, cs := CSys.boot d0 ini ep, odur := d0, oepoch := ep,
+          ({ kind := if k = "k" then .k else if k = "C" then .c else .i, cs := CSys.boot d0 ini ep, odur := d0, oepoch := ep,
              ospent := ep, oon := ep ≤ 16777216 }, "case")
         | _, _, _ => ({}, "BAD header")
       | _ => ({}, "BAD header")
@@ -311,9 +457,11 @@ def step (st : St) (line : String) : St × String :=
   | ws =>
     match st.kind with
     | .g => stepG st ws out
+    | .w => stepW st ws out
     | .e => stepE st ws out
     | .k => stepC st false ws out
     | .i => stepC st true ws out
+    | .c => stepCW st ws out
     | .none => (st, "BAD no case")
 
 def run : IO UInt32 := Driver.runLoop ({} : St) step
